@@ -100,3 +100,30 @@ contract("jellyfysh.event_handler.fixed_interval_sampling_event_handler:FixedInt
          trusted=["cpython_float_divmod (see C14)"],
          note="new time = quotient + RN(remainder + interval) with both remaining operations exact: one rounding per "
               "sample, of a number below 2^40+1, whatever the accumulated time")
+
+# ---- C07: an end-of-chain event changes the direction, never the speed ("one chain with the initial speed")
+EOCP = "jellyfysh.event_handler.single_independent_active_periodic_direction_end_of_chain_event_handler:" \
+       "SingleIndependentActivePeriodicDirectionEndOfChainEventHandler."
+EOCS = "jellyfysh.event_handler.single_independent_active_sequential_direction_end_of_chain_event_handler:" \
+       "SingleIndependentActiveSequentialDirectionEndOfChainEventHandler."
+cls("SingleIndependentActiveSequentialDirectionEndOfChainEventHandler", _cos_delta_phi="float", _sin_delta_phi="float")
+contract(EOCP + "_get_new_velocity", "C07", model="R", params={"old_velocity": "list[float]"}, returns="list[float]",
+         globals=["dimension"],
+         requires=["len(old_velocity) == 3"],
+         may_raise={"AssertionError": []},
+         ensures=["len(result) == 3", "fresh(result)",
+                  # the single moving component is handed to the next axis (cyclically), unchanged; the others are zero
+                  "forall(0, 3, lambda d: implies(old_velocity[d] != 0, result[(d + 1) % 3] == old_velocity[d] and "
+                  "result[d] == 0 and result[(d + 2) % 3] == 0))",
+                  "result[0] * result[0] + result[1] * result[1] + result[2] * result[2] == "
+                  "old_velocity[0] * old_velocity[0] + old_velocity[1] * old_velocity[1] + old_velocity[2] * old_velocity[2]"],
+         canary="result[0] == 0", native_search=False,
+         note="periodic direction change: same speed, next axis")
+contract(EOCS + "_get_new_velocity", "C07", model="R", params={"old_velocity": "list[float]"}, returns="list[float]",
+         requires=["self._cos_delta_phi * self._cos_delta_phi + self._sin_delta_phi * self._sin_delta_phi == 1"],
+         may_raise={"AssertionError": []},
+         ensures=["len(result) == 2",
+                  "result[0] * result[0] + result[1] * result[1] == old_velocity[0] * old_velocity[0] + old_velocity[1] * old_velocity[1]"],
+         canary="result[0] == 0", native_search=False,
+         note="sequential direction change (2-D rotation): the speed is conserved for every rotation angle "
+              "(cos^2 + sin^2 = 1 is the constructor's invariant, assumed)")
